@@ -437,7 +437,7 @@ def obligations(tier, seed):
                       "2-cluster chain; emitted bytes <= chain bytes as unwinding assertion", stubs=["AbsFile/Spans", "NpShim"]))
     # shared kernels: fuel assertions of the allocation-table decoders and the directory table loop
     for o in c07.obligations(tier, seed):
-        if o["name"].startswith(("C07.akai/n=3", "C07.roland/m=3", "C07.path")) or (not q and o["name"].startswith(("C07.akai/n=4", "C07.roland/m=4"))):
+        if o["name"].startswith(("C07.akai/n=3", "C07.roland/m=3", "C07.path")) or (not q and o["name"].startswith("C07.akai/n=4")):
             o = dict(o, name=o["name"].replace("C07.", "C13.fuel/"))
             obs.append(o)
     for o in c14.obligations(tier, seed):
